@@ -218,8 +218,8 @@ func prefilterFunc(pattern string) func(string) bool {
 		// A literal is the prefix/suffix constraint only when it survived
 		// filterShort (len >= 2), meaning it IS the first/last literal in the
 		// pattern and not replaced by a longer one that appeared elsewhere.
-		usePrefix := hasBeginAnchor(re) && len(origFirst) >= 2
-		useSuffix := hasEndAnchor(re) && len(origLast) >= 2
+		usePrefix := literalFollowsBeginAnchor(re) && len(origFirst) >= 2
+		useSuffix := literalPrecedesEndAnchor(re) && len(origLast) >= 2
 		if !usePrefix && !useSuffix {
 			// No anchor: sort longest-first for best early exit.
 			slices.SortFunc(filtered, func(a, b string) int { return len(b) - len(a) })
@@ -1019,6 +1019,32 @@ func hasEndAnchor(re *syntax.Regexp) bool {
 	return false
 }
 
+// literalFollowsBeginAnchor reports whether the first required literal of re sits directly behind \A, so that a
+// match must START with it. A start anchor alone is not enough: in \A\d+hello the literal is required, but not at
+// position 0, and demanding it there rejects inputs the regex matches.
+func literalFollowsBeginAnchor(re *syntax.Regexp) bool {
+	for re.Op == syntax.OpCapture {
+		re = re.Sub[0]
+	}
+	return re.Op == syntax.OpConcat && len(re.Sub) >= 2 && re.Sub[0].Op == syntax.OpBeginText && isLiteralNode(re.Sub[1])
+}
+
+// literalPrecedesEndAnchor is the mirror image for \z: a match must END with the last required literal.
+func literalPrecedesEndAnchor(re *syntax.Regexp) bool {
+	for re.Op == syntax.OpCapture {
+		re = re.Sub[0]
+	}
+	n := len(re.Sub)
+	return re.Op == syntax.OpConcat && n >= 2 && re.Sub[n-1].Op == syntax.OpEndText && isLiteralNode(re.Sub[n-2])
+}
+
+func isLiteralNode(re *syntax.Regexp) bool {
+	for re.Op == syntax.OpCapture {
+		re = re.Sub[0]
+	}
+	return re.Op == syntax.OpLiteral
+}
+
 // hasPrefixFoldASCII reports whether s begins with prefix (ASCII case-insensitive).
 // prefix must already be lowercase.
 func hasPrefixFoldASCII(s, prefix string) bool {
@@ -1124,8 +1150,8 @@ func buildCombinedPF(v combinedRequired, ci bool, re *syntax.Regexp) func(string
 
 	var allPF func(string) bool
 	if len(filteredAll) > 0 {
-		usePrefix := hasBeginAnchor(re) && len(origFirst) >= 2
-		useSuffix := hasEndAnchor(re) && len(origLast) >= 2
+		usePrefix := literalFollowsBeginAnchor(re) && len(origFirst) >= 2
+		useSuffix := literalPrecedesEndAnchor(re) && len(origLast) >= 2
 		if !usePrefix && !useSuffix {
 			slices.SortFunc(filteredAll, func(a, b string) int { return len(b) - len(a) })
 		}
